@@ -2,6 +2,19 @@ HOOK_COMMITS = ["d197d80"]
 NOTES = "All checks are generated-input search (proptest choice sequences, exhaustive small-domain enumeration) against explicit oracles; see DESIGN.md. Exit 2 = inconclusive (build failure / watchdog), never a violation."
 NOT_CLAIMED = {}
 CLAIMED = {
+ "C08": {
+  "technique": "model-based (stateful) property testing: generated operation histories interpreted against live contexts and an abstract typed-map model",
+  "text": "Exploration: histories of up to 40 (quick) / 120 (thorough) operations (set by field of the own / cloned / twin scheme, set by name incl. unknown and near-miss names, get, clear, clone_with, nested borrow_with + drop, take_with, list-matcher updates, filter and value execution for own and foreign schemes) over generated schemes; after every step every live context is read back in full and compared (==) with a freshly built expected context; set outcomes (previous value, error variant, no change on failure) follow the model; separate constructor checks (Array::try_from_iter/try_from_vec, Map::try_from_iter, TypedArray/TypedMap) accept exactly homogeneous element lists.",
+  "note": "Mandatory fields unset make execution panic by contract: such executions are skipped and counted; a foreign field with a wrong type may report either error variant.",
+  "ref": "DESIGN.md section 3, C08",
+ },
+ "C20": {
+  "technique": "differential property testing (C API called from the rlib vs Rust API on the same scheme) + failure-sequence histories + interleaved threads + child process for panics",
+  "text": "Exploration: schemes are built through the C constructors; generated filters (well-typed, mutated, NUL-containing, invalid UTF-8) give the same parse outcome with last-error = ParseError text (NUL -> 0x1A), the same AST JSON, equal hashes for equal JSON, the same uses/uses_list, the same context serialisation (typed setters and JSON setter) and the same match results (also vs the reference evaluator); histories of failing/succeeding/clear calls over 12 kinds of failures check that every failure sets a well-formed, NUL-terminated last error with no interior NUL; two threads interleaved step by step see exactly the errors they see alone; a child process checks Status::Panic for a user function panicking at parse, compile and match time and that the next call works.",
+  "note": "The extern C functions are called as Rust functions from the rlib; an abnormal child exit counts as a panic crossing the C boundary.",
+  "ref": "DESIGN.md section 3, C20",
+ },
+
  "C15": {
   "technique": "exhaustive enumeration of all types up to 12 layers + sampled deep types and generated scheme documents through four serde entry points; round-trip and differential (Rust vs C API) oracles",
   "text": "Exploration: all 32,764 types with <= 12 layers and shaped/sampled types up to 32 layers round-trip through the recursive, bit-packed (CompoundType, CType built through the C constructors) and JSON forms (5 writers incl. the C API, 5 readers); descriptors with 33..130 layers must be rejected or reproduce the same JSON, never panic; scheme documents with 0..40 fields (dotted, long, non-ASCII, escape-requiring names, re-spelled with \\u escapes) round-trip names, order, types and optionality through from_str/from_slice/from_reader/from_value, duplicates (also equal only after escape normalisation) are rejected.",
